@@ -370,3 +370,37 @@ contract("stochastic.Stochastic.generate",
                        "returns-a-well-formed-molecule": ["C06", "C04"], "cover": ["C06", "C07", "C09", "C15"], "frame": ["C10"]},
          modifies=["BondDescriptor.weight@prefix.bond_descriptors[0]", "BondDescriptor.transitions@prefix.bond_descriptors[0]",
                    "MolGen._mol@prefix", "MolGen.graph@prefix", "list@prefix.bond_descriptors"] + _ALL_GHOSTS)
+
+
+# ---- SmilesToken.generate: a plain token, attached to the prefix through one of its own descriptors (hand-over, C04 / C06 / C08) ------------
+_K0 = "my_idx = choose_compatible_weight(my_mol.bond_descriptors, prefix.bond_descriptors[0], rng)"
+_K1 = "my_mol = prefix.attach_other(0, my_mol, my_idx)"
+_T_K0 = site("hand-over", pick_site("my_mol.bond_descriptors", "prefix.bond_descriptors[0]", "my_idx"))
+_T_K1 = site("hand-over:bond", {
+    "bonds == old(bonds) + 1 and bond_a[old(bonds)] == old(val(prefix.bond_descriptors[0].atom_bonding_to)) "
+    "and bond_t[old(bonds)] == old(prefix.bond_descriptors[0].bond_type)": "one-bond-at-the-atom-of-the-prefix-descriptor-with-its-order"})
+_TG = {
+    "old(token_gen_ok(self))": "refuses-a-token-with-a-negative-weight",
+    "molgen_wf(result) and implies(is_none(prefix) or old(weights_ok(prefix.bond_descriptors)), weights_ok(result.bond_descriptors))": "returns-a-well-formed-molecule",
+    "implies(is_none(prefix), fresh(result) and fresh(result.bond_descriptors) and fresh(result.graph) and len(result.bond_descriptors) == len(self.bond_descriptors) "
+    "and result._mol == smiles_mol(frag_text(self)))": "without-prefix-the-token-itself",
+    "implies(not is_none(prefix), result is prefix and old(len(prefix.bond_descriptors)) == 1 and len(result.bond_descriptors) == len(self.bond_descriptors) - 1 "
+    "and natoms(result._mol) == old(natoms(prefix._mol)) + natoms(smiles_mol(frag_text(self))) and mass(result._mol) == old(mass(prefix._mol)) + mass(smiles_mol(frag_text(self))))":
+        "with-prefix-one-bond-consumes-one-descriptor-on-each-side",
+    "units == old(units) and draws == old(draws)": "no-unit-and-no-draw",
+}
+contract("token.SmilesToken.generate",
+         props=["C06", "C04", "C08", "C15", "C05"],
+         params=dict(self=Ref("SmilesToken"), prefix=NRef("MolGen"), rng=GENERATOR), defaults={"prefix": None, "rng": None}, returns=Ref("MolGen"),
+         requires=["implies(not is_none(prefix), molgen_wf(prefix))"],
+         assumes=["token_wf(self)", "owner(self) == NOTATION and owner(self.bond_descriptors) == NOTATION"],
+         ensures=list(_TG), labels={**_TG, **_T_K0, **_T_K1, "token_wf(self)": "inv-token-well-formed"},
+         raises_may={"RuntimeError": "True", "ValueError": "True", "IndexError": "True", "TypeError": "True"},
+         assert_at={_K0: list(_T_K0), _K1: list(_T_K1)}, ghost_before={_K0: ["at_site_choices = choices"]},
+         clause_props={**{l: ["C08"] for l in _T_K0.values()}, **{l: ["C04"] for l in _T_K1.values()},
+                       "refuses-a-token-with-a-negative-weight": ["C15"], "returns-a-well-formed-molecule": ["C06", "C04"],
+                       "without-prefix-the-token-itself": ["C06", "C05"], "with-prefix-one-bond-consumes-one-descriptor-on-each-side": ["C06", "C05", "C04"],
+                       "no-unit-and-no-draw": ["C07"], "cover": ["C06", "C08", "C04"], "frame": ["C10"]},
+         modifies=["MolGen._mol@prefix", "MolGen.graph@prefix", "list@prefix.bond_descriptors",
+                   "ghost.bonds", "ghost.bond_a", "ghost.bond_b", "ghost.bond_t", "ghost.at_site_choices",
+                   "ghost.choices", "ghost.last_p", "ghost.last_n", "ghost.last_pick", "ghost.last_rng", "ghost.last_cand", "ghost.last_norm"])
